@@ -537,11 +537,24 @@ func gen(r *rand.Rand, tier string, i int) input {
 		Whitelist: r.IntN(2) == 0,
 		Reset:     r.IntN(2) == 0,
 	}
-	pool := make([]item, 1+r.IntN(4))
+	// a small pool of commands; half of the later ones share the previous command's channel with
+	// another sender / device, so that one case holds several senders' facts about one channel
+	// (distinct cache keys and batch reads that differ only in the uid)
+	pool := make([]item, 1+r.IntN(5))
 	for k := range pool {
 		pool[k] = genItem(r, tier)
+		if k > 0 && r.IntN(2) == 0 {
+			prev := pool[k-1]
+			pool[k] = prev
+			switch r.IntN(4) {
+			case 0:
+				pool[k].Dev = vh.Pick(r, "d1", "sysdev", "")
+			default:
+				pool[k].From = vh.Pick(r, "a", "b", "c", "sys", "x")
+			}
+		}
 	}
-	n := 1 + r.IntN(6)
+	n := 1 + r.IntN(7)
 	if tier == "thorough" && r.IntN(10) == 0 {
 		n = 6 + r.IntN(10)
 	}
